@@ -597,3 +597,52 @@ def is_discarded(fn, node):
     if k == "cast" and p.get("ck") == "ToVoid":
         return True
     return False
+
+
+# -------------------------------------------------- boolean structure of a condition
+def bool_eval(fn, n, env, depth=0):
+    """Evaluate condition n under env: {canonical atom string -> bool}.  Understands && || ! == != on atoms, the constants,
+    and locals of type bool that are initialised once and never reassigned (substituted by their initialiser).
+    Returns True / False / None (None: mentions an atom outside env)."""
+    from .facts import core, expr_str
+    n = core(n)
+    if n is None:
+        return None
+    k = n.get("k")
+    if k == "bool":
+        return bool(n.get("v"))
+    s = canon(n)
+    if s in env:
+        return env[s]
+    if k == "un" and n.get("op") == "!":
+        v = bool_eval(fn, n.child("e"), env, depth)
+        return None if v is None else (not v)
+    if k == "bin" and n.get("op") in ("&&", "||"):
+        a, b = bool_eval(fn, n.child("l"), env, depth), bool_eval(fn, n.child("r"), env, depth)
+        if n["op"] == "&&":
+            if a is False or b is False:
+                return False
+            return None if a is None or b is None else True
+        if a is True or b is True:
+            return True
+        return None if a is None or b is None else False
+    if (k == "bin" or k == "call") and n.get("op") in ("==", "!="):
+        l = n.child("l") if k == "bin" else (n.child("obj") if "obj" in n else fn.nodes[n["args"][0]])
+        r = n.child("r") if k == "bin" else fn.nodes[n["args"][-1]]
+        for key in ("(%s == %s)" % (canon(l), canon(r)), "(%s == %s)" % (canon(r), canon(l))):
+            if key in env:
+                return env[key] if n["op"] == "==" else (not env[key])
+        return None
+    if k == "ref" and depth < 4:
+        inits, writes = [], 0
+        for d in fn.nodes:
+            if d.get("k") == "decl":
+                for v in d.get("vars", []):
+                    if v.get("did") == n.get("did") and "init" in v:
+                        inits.append(fn.nodes[v["init"]])
+            if d.get("k") == "bin" and d.get("op", "").endswith("=") and d["op"] not in ("==", "!=", "<=", ">=") and \
+                    core(d.child("l")) is not None and core(d.child("l")).get("did") == n.get("did") and n.get("did") is not None:
+                writes += 1
+        if len(inits) == 1 and writes == 0:
+            return bool_eval(fn, inits[0], env, depth + 1)
+    return None
